@@ -4,7 +4,7 @@ CONSTANTS
   Dirs = {"<", ">"}
   MaxDirs = 3
   FieldLens = {1, 4, 11}
-  Opts = {"", ".", "#"}
+  Opts = {"", "~"}
   EqLens = {2}
   ByteVals = {47}
   Stars = TRUE
@@ -18,7 +18,7 @@ CONSTANTS
   DupNames = FALSE
   Gen = TRUE
   WordMode = "boundary"
-  NRand = 2
+  NRand = 1
   Dev = {}
 INIT Init
 NEXT Next
